@@ -81,10 +81,19 @@ def _tag(s):
 
 
 class Inst:
-    def __init__(self, schema, rule, text, expect, applicable=True, target=None, contexts=None):
-        self.schema, self.rule, self.text, self.expect, self.applicable = schema, rule, text, expect, applicable
-        self.target = target  # function(outer_node) -> node the rule is applied at (default: the subtree itself)
+    """One schema instance.  `kind` + `params` (JSON-able) determine the expected shape and the
+    target node, so that a witness can be re-driven exactly (see `rebuild`)."""
+
+    def __init__(self, schema, rule, text, kind, params=None, applicable=True, contexts=None):
+        self.schema, self.rule, self.text, self.kind, self.params, self.applicable = schema, rule, text, kind, params or {}, applicable
+        self.expect, self.target = EXPECT[kind](self.params) if kind in EXPECT else (None, None)
+        if kind in TARGET_ONLY:
+            self.target = TARGET_ONLY[kind](self.params)
         self.contexts = contexts or CONTEXTS
+
+
+def rebuild(w):
+    return Inst(w["schema"], w["rule"], w["text"], w["kind"], w.get("params"), w.get("applicable", True), [w["context"]])
 
 
 def classify_refusal(inst, node):
@@ -118,7 +127,8 @@ def run_instance(rec, inst, rng, ctx_sample):
             continue
         rec.ev()
         ok = bool(rule.can_apply_to(node))
-        w = {"schema": inst.schema, "rule": inst.rule, "text": inst.text, "context": ctx, "full": full}
+        w = {"schema": inst.schema, "rule": inst.rule, "text": inst.text, "context": ctx, "full": full, "kind": inst.kind, "params": inst.params,
+             "applicable": inst.applicable}
         if not inst.applicable:
             if ok:
                 w["summary"] = f"{inst.rule} accepts the documented non-applicable form '{inst.text}' in '{full}'"
@@ -183,71 +193,54 @@ def operand(rng):
     return f"sgn({rng.choice(VARS)})"
 
 
-def instances(rng):
+def _exp_cs(p):
+    K = p["K"]
     eq = A.acnf
-    # ---- commutative
-    for op, K in (("+", "Add"), ("*", "Multiply")):
-        a, b = operand(rng), operand(rng)
 
-        def exp(w, g, r, K=K):
-            if w[2][0] != K:
-                # a op b -> b op a
-                return "ok" if g == (K, None, w[3], w[2]) else "WRONG: operands not swapped"
-            # chain (x op y) op z: the documented swap of the two operands of the node, or the
-            # rule's direct swap of y and z; both are the same up to order/grouping, but
-            # something has to move unless the swapped operands are identical
-            if eq(w) != eq(g):
-                return "WRONG: operands changed"
-            if g != w or w[2][3] == w[3]:
-                return "ok"
-            return "WRONG: nothing was swapped"
+    def exp(w, g, r):
+        if w[2][0] != K:
+            return "ok" if g == (K, None, w[3], w[2]) else "WRONG: operands not swapped"
+        if eq(w) != eq(g):
+            return "WRONG: operands changed"
+        if g != w or w[2][3] == w[3]:
+            return "ok"
+        return "WRONG: nothing was swapped"
 
-        yield Inst("CS" + op, "CS", f"{a} {op} {b}", exp)
-        yield Inst("CS" + op, "CS:np", f"({a} + 1) {op} {b}", exp)
-    a, b = operand(rng), operand(rng)
-    yield Inst("CS-neg", "CS", f"({a}) {rng.choice(['-', '/', '^'])} ({b})", None, applicable=False)
-    yield Inst("CS:np-neg", "CS:np", rng.choice(POSC) + rng.choice(VARS) + rng.choice(["", "^2", "^3", "^7"]), None, applicable=False, contexts=["{}", "{} + q", "q + {}", "q - {}", "sgn({})"])
-    # ---- associative
-    for op, K in (("+", "Add"), ("*", "Multiply")):
-        a, b, c = operand(rng), operand(rng), operand(rng)
-        if op == "*":
-            a, b, c = (f"({x})" if " " in x else x for x in (a, b, c))
+    return exp, None
 
-        def exp_l(w, g, r, K=K):  # (a op b) op c -> a op (b op c)
+
+def _exp_ag(p):
+    K, side = p["K"], p["side"]
+
+    def exp(w, g, r):
+        if side == "L":  # (a op b) op c -> a op (b op c)
             a_, b_, c_ = w[2][2], w[2][3], w[3]
             return "ok" if g == (K, None, a_, (K, None, b_, c_)) else "WRONG: not regrouped as documented"
+        a_, b_, c_ = w[2], w[3][2], w[3][3]
+        return "ok" if g == (K, None, (K, None, a_, b_), c_) else "WRONG: not regrouped as documented"
 
-        def exp_r(w, g, r, K=K):  # a op (b op c) -> (a op b) op c
-            a_, b_, c_ = w[2], w[3][2], w[3][3]
-            return "ok" if g == (K, None, (K, None, a_, b_), c_) else "WRONG: not regrouped as documented"
+    return exp, (lambda o: o.left) if side == "L" else (lambda o: o.right)
 
-        yield Inst("AG" + op, "AG", f"({a} {op} {b}) {op} {c}", exp_l, target=lambda o: o.left)
-        yield Inst("AG" + op, "AG", f"{a} {op} ({b} {op} {c})", exp_r, target=lambda o: o.right)
-    a, b, c = operand(rng), operand(rng), operand(rng)
-    yield Inst("AG-neg", "AG", f"({a} - {b}) - {c}", None, applicable=False, target=lambda o: o.left)
-    yield Inst("AG-neg", "AG", f"({a} + {b}) * {c}", None, applicable=False, target=lambda o: o.left)
-    # ---- constant arithmetic
-    consts = ["2", "3", "4", "6", "7", "12", "2.5", "1.5", "0.5", "-3", "-4", "0", "5", "10", "0.1", "0.2", "100", "1"]
-    for op, f in (("+", lambda x, y: x + y), ("-", lambda x, y: x - y), ("*", lambda x, y: x * y), ("/", lambda x, y: x / y if y else None)):
-        c1, c2 = rng.choice(consts), rng.choice(consts)
-        if op == "/" and Fraction(c2) == 0:
-            c2 = "4"
 
-        def exp(w, g, r, f=f):
-            if g[0] != "Constant":
-                return "NOT-A-CONSTANT: result is not a single constant"
-            val = f(w[2][1], w[3][1])
-            if val is None or not isinstance(g[1], Fraction):
-                return "WRONG-VALUE: non-finite"
-            return "ok" if abs(g[1] - val) <= Fraction(1, 10 ** 12) * max(1, abs(val)) else f"WRONG-VALUE: {g[1]} expected {val}"
+def _exp_ca(p):
+    op = p["op"]
+    f = {"+": lambda x, y: x + y, "-": lambda x, y: x - y, "*": lambda x, y: x * y, "/": lambda x, y: x / y if y else None}[op]
 
-        yield Inst("CA" + op, "CA", f"{c1} {op} {c2}", exp)
-    # ---- factor out
-    v_ = rng.choice(VARS)
-    e_ = rng.choice(EXPS)
-    c1, c2 = rng.choice(COEFS), rng.choice(COEFS)
+    def exp(w, g, r):
+        if g[0] != "Constant":
+            return "NOT-A-CONSTANT: result is not a single constant"
+        val = f(w[2][1], w[3][1])
+        if val is None or not isinstance(g[1], Fraction):
+            return "WRONG-VALUE: non-finite"
+        return "ok" if abs(g[1] - val) <= Fraction(1, 10 ** 12) * max(1, abs(val)) else f"WRONG-VALUE: {g[1]} expected {val}"
 
-    def exp_df(w, g, r):
+    return exp, None
+
+
+def _exp_df(p):
+    eq = A.acnf
+
+    def exp(w, g, r):
         a = eq(g)
         if a[0] != "Multiply*":
             return "SHAPE: not a product"
@@ -262,27 +255,25 @@ def instances(rng):
             return "SHAPE: the common factor lost the variable"
         return "ok" if value_equal(w, g, r) else "WRONG-VALUE: factored form is not equal to the sum"
 
-    yield Inst("DF", "DF", f"{c1}{v_}{e_} + {c2}{v_}{e_}", exp_df)
-    yield Inst("DF", "DF:c", f"{c1}{v_}{e_} + {c2}{v_}{e_}", exp_df)
-    p1, p2 = rng.sample(["2", "3", "5", "7", "11", ""], 2)
-    neg = rng.choice([f"{p1}x + {p2}y", "x^2 + x^3", f"{p1}x + {p2}x^2", "x + 4", "4 + 6", "12 + 18", "x^2 + y^2", "3 + x", f"{p1}x^2 + {p2}y^2",
-                      f"{p1}a + {p2}", "x + y"])
-    yield Inst("DF-neg", "DF", neg, None, applicable=False)
-    k1, k2 = rng.choice([(4, 6), (12, 18), (10, 5), (6, 9), (8, 12), (3, 3), (14, 21)])
+    return exp, None
 
-    def exp_dfc(w, g, r):
+
+def _exp_dfc(p):
+    eq = A.acnf
+
+    def exp(w, g, r):
         a = eq(g)
         if a[0] != "Multiply*" or not any(x[0] == "Add*" for x in a[1]):
             return "SHAPE: not a product with a sum"
         return "ok" if value_equal(w, g, r) else "WRONG-VALUE"
 
-    yield Inst("DF:c", "DF:c", f"{k1} + {k2}", exp_dfc)
-    # ---- distribute
-    a, b, c = operand(rng), operand(rng), operand(rng)
-    if " " in a and not a.startswith("sgn"):
-        a = rng.choice(VARS)
+    return exp, None
 
-    def exp_dm(w, g, r):
+
+def _exp_dm(p):
+    eq = A.acnf
+
+    def exp(w, g, r):
         if w[3][0] == "Add" and w[2][0] != "Add":
             a_, b_, c_ = w[2], w[3][2], w[3][3]
         else:
@@ -290,28 +281,24 @@ def instances(rng):
         want = ("Add", None, ("Multiply", None, a_, b_), ("Multiply", None, a_, c_))
         return "ok" if eq(want) == eq(g) else "WRONG: not ab + ac"
 
-    yield Inst("DM", "DM", f"{a} * ({b} + {c})", exp_dm)
-    yield Inst("DM", "DM", f"({b} + {c}) * {a}", exp_dm)
-    # ---- multiplicative inverse
-    a, b = operand(rng), operand(rng)
-    if b in ("0",):
-        b = "y"
+    return exp, None
 
-    def exp_mi(w, g, r):
+
+def _exp_mi(p):
+    def exp(w, g, r):
+        if p.get("neg"):
+            return "ok" if g == ("Multiply", None, w[2], ("Divide", None, A.C(-1), w[3][3])) else "WRONG: not a * (-1 / b)"
         return "ok" if g == ("Multiply", None, w[2], ("Divide", None, A.C(1), w[3])) else "WRONG: not a * (1 / b)"
 
-    def exp_min(w, g, r):
-        return "ok" if g == ("Multiply", None, w[2], ("Divide", None, A.C(-1), w[3][3])) else "WRONG: not a * (-1 / b)"
+    return exp, None
 
-    yield Inst("MI", "MI", f"{a} / {b}", exp_mi)
-    bb = rng.choice([rng.choice(VARS), f"({term(rng)} + {rng.choice(POSC)})", f"({rng.choice(VARS)} * {rng.choice(VARS)})"])
-    yield Inst("MI-neg-denominator", "MI", f"{a} / -{bb}", exp_min)
-    # ---- restate subtraction
-    a = operand(rng)
-    b = rng.choice([term(rng), rng.choice(VARS), rng.choice(POSC), f"({term(rng)} + 1)", f"{rng.choice(VARS)}^2", "-" + rng.choice(VARS), "-" + rng.choice(POSC),
-                    f"-{rng.choice(POSC)}{rng.choice(VARS)}", f"{rng.choice(VARS)} * {rng.choice(VARS)}", f"sgn({rng.choice(VARS)})", f"{rng.choice(POSC)}^2", f"{rng.choice(['3', '5'])}!"])
 
-    def exp_rs(w, g, r):
+def _exp_rs(p):
+    def exp(w, g, r):
+        if p.get("back"):
+            if g[0] != "Subtract" or g[2] != w[2]:
+                return "WRONG-SHAPE: not a - b"
+            return "ok" if value_equal(("Negate", None, None, w[3]), g[3], r) else "WRONG-VALUE: subtrahend is not -(right operand)"
         if g[0] != "Add" or g[2] != w[2]:
             return "WRONG-SHAPE: not a + (-b)"
         neg_b = ("Negate", None, None, w[3])
@@ -319,24 +306,16 @@ def instances(rng):
             return "WRONG-VALUE: second operand is not -b"
         if g[3] == neg_b or g[3] == (w[3][3] if w[3][0] == "Negate" else None):
             return "ok"
-        # b with its leading constant negated
-        return "ok" if A.leaves(g[3])[1:] == A.leaves(w[3])[1:] or len(A.leaves(g[3])) == len(A.leaves(w[3])) else "WRONG-SHAPE: operand restructured"
+        return "ok" if len(A.leaves(g[3])) == len(A.leaves(w[3])) else "WRONG-SHAPE: operand restructured"
 
-    yield Inst("RS-sub", "RS", f"{a} - {b}", exp_rs)
-    nb = rng.choice([f"-{rng.choice(POSC)}", f"-{rng.choice(POSC)}{rng.choice(VARS)}", f"-{rng.choice(POSC)}{rng.choice(VARS)}^{rng.choice(['2', '3', '0.5', '-1'])}"])
+    return exp, None
 
-    def exp_rsb(w, g, r):
-        if g[0] != "Subtract" or g[2] != w[2]:
-            return "WRONG-SHAPE: not a - b"
-        return "ok" if value_equal(("Negate", None, None, w[3]), g[3], r) else "WRONG-VALUE: subtrahend is not -(right operand)"
 
-    yield Inst("RS-back", "RS", f"{a} + {nb}", exp_rsb)
-    # ---- variable multiply
-    x = rng.choice(VARS)
-    c1, c2 = rng.choice(["", "2", "-3", "0.5", "4", "7"]), rng.choice(["", "2", "-3", "0.5", "4", "10"])
-    e1, e2 = rng.choice(["", "^2", "^0", "^-1", "^0.5", "^3", "^7"]), rng.choice(["", "^2", "^0", "^-1", "^0.5", "^3", "^4"])
+def _exp_vm(p):
+    x, e1, e2 = p["x"], p["e1"], p["e2"]
+    eq = A.acnf
 
-    def exp_vm(w, g, r, x=x, e1=e1, e2=e2):
+    def exp(w, g, r):
         a = eq(g)
         items = a[1] if a[0] == "Multiply*" else (a,)
         pows = [i for i in items if i[0] == "Power"]
@@ -350,9 +329,129 @@ def instances(rng):
             return "WRONG-SHAPE: variable outside the power"
         return "ok" if value_equal(w, g, r) else "WRONG-VALUE"
 
-    yield Inst("VM", "VM", f"{c1}{x}{e1} * {c2}{x}{e2}", exp_vm)
+    return exp, None
+
+
+def _exp_bm_add(p):
+    t, side, pos = p["t"], p["side"], p["pos"]
+    eq = A.acnf
+
+    def target(o):
+        s_ = o.left if side == "L" else o.right
+        want = vs(t)
+        n = s_
+        if S.kind(n) != "Add":
+            return None
+        if pos == "last":
+            return n.right if A.v(S.shadow(n.right)) == want else None
+        while S.kind(n.left) == "Add":
+            n = n.left
+        return n.left if A.v(S.shadow(n.left)) == want else None
+
+    def exp(w, g, r):
+        if g[0] != "Equal":
+            return "WRONG: not an equation"
+        tv = vs(t)
+        moved_to = g[3] if side == "L" else g[2]
+        stay = g[2] if side == "L" else g[3]
+        other_before = w[3] if side == "L" else w[2]
+        if moved_to != ("Subtract", None, other_before, tv):
+            return "WRONG-SHAPE: other side is not (side - t)"
+        src_before = w[2] if side == "L" else w[3]
+        return "ok" if eq(src_before) == eq(("Add", None, stay, tv)) else "WRONG-SHAPE: remaining side is not the side without t"
+
+    return exp, target
+
+
+def _exp_bm_mul(p):
+    c_, flip = p["c"], p["flip"]
+
+    def target(o):
+        s_ = o.right if flip else o.left
+        return s_.left if S.kind(s_) == "Multiply" and S.kind(s_.left) == "Constant" else None
+
+    def exp(w, g, r):
+        cv = A.C(Fraction(c_))
+        want = ("Equal", None, ("Divide", None, w[2], cv), ("Divide", None, w[3], cv))
+        return "ok" if g == want else "WRONG-SHAPE: not both sides divided by the coefficient"
+
+    return exp, target
+
+
+EXPECT = {"cs": _exp_cs, "ag": _exp_ag, "ca": _exp_ca, "df": _exp_df, "dfc": _exp_dfc, "dm": _exp_dm, "mi": _exp_mi, "rs": _exp_rs, "vm": _exp_vm,
+          "bm_add": _exp_bm_add, "bm_mul": _exp_bm_mul}
+TARGET_ONLY = {
+    "ag_neg": lambda p: (lambda o: o.left),
+    "bm_neg": lambda p: (lambda o: o.left.right.right if S.kind(o.left) == "Multiply" and S.kind(o.left.right) == "Add" else None),
+}
+
+
+def instances(rng):
+    # ---- commutative
+    for op, K in (("+", "Add"), ("*", "Multiply")):
+        a, b = operand(rng), operand(rng)
+        yield Inst("CS" + op, "CS", f"{a} {op} {b}", "cs", {"K": K})
+        yield Inst("CS" + op, "CS:np", f"({a} + 1) {op} {b}", "cs", {"K": K})
+    a, b = operand(rng), operand(rng)
+    yield Inst("CS-neg", "CS", f"({a}) {rng.choice(['-', '/', '^'])} ({b})", "neg", applicable=False)
+    yield Inst("CS:np-neg", "CS:np", rng.choice(POSC) + rng.choice(VARS) + rng.choice(["", "^2", "^3", "^7"]), "neg", applicable=False,
+               contexts=["{}", "{} + q", "q + {}", "q - {}", "sgn({})"])
+    # ---- associative
+    for op, K in (("+", "Add"), ("*", "Multiply")):
+        a, b, c = operand(rng), operand(rng), operand(rng)
+        if op == "*":
+            a, b, c = (f"({x})" if " " in x else x for x in (a, b, c))
+        yield Inst("AG" + op, "AG", f"({a} {op} {b}) {op} {c}", "ag", {"K": K, "side": "L"})
+        yield Inst("AG" + op, "AG", f"{a} {op} ({b} {op} {c})", "ag", {"K": K, "side": "R"})
+    a, b, c = operand(rng), operand(rng), operand(rng)
+    yield Inst("AG-neg", "AG", f"({a} - {b}) - {c}", "ag_neg", applicable=False)
+    yield Inst("AG-neg", "AG", f"({a} + {b}) * {c}", "ag_neg", applicable=False)
+    # ---- constant arithmetic
+    consts = ["2", "3", "4", "6", "7", "12", "2.5", "1.5", "0.5", "-3", "-4", "0", "5", "10", "0.1", "0.2", "100", "1"]
+    for op in "+-*/":
+        c1, c2 = rng.choice(consts), rng.choice(consts)
+        if op == "/" and Fraction(c2) == 0:
+            c2 = "4"
+        yield Inst("CA" + op, "CA", f"{c1} {op} {c2}", "ca", {"op": op})
+    # ---- factor out
+    v_ = rng.choice(VARS)
+    e_ = rng.choice(EXPS)
+    c1, c2 = rng.choice(COEFS), rng.choice(COEFS)
+    yield Inst("DF", "DF", f"{c1}{v_}{e_} + {c2}{v_}{e_}", "df")
+    yield Inst("DF", "DF:c", f"{c1}{v_}{e_} + {c2}{v_}{e_}", "df")
+    p1, p2 = rng.sample(["2", "3", "5", "7", "11", ""], 2)
+    neg = rng.choice([f"{p1}x + {p2}y", "x^2 + x^3", f"{p1}x + {p2}x^2", "x + 4", "4 + 6", "12 + 18", "x^2 + y^2", "3 + x", f"{p1}x^2 + {p2}y^2",
+                      f"{p1}a + {p2}", "x + y"])
+    yield Inst("DF-neg", "DF", neg, "neg", applicable=False)
+    k1, k2 = rng.choice([(4, 6), (12, 18), (10, 5), (6, 9), (8, 12), (3, 3), (14, 21)])
+    yield Inst("DF:c", "DF:c", f"{k1} + {k2}", "dfc")
+    # ---- distribute
+    a, b, c = operand(rng), operand(rng), operand(rng)
+    if " " in a and not a.startswith("sgn"):
+        a = rng.choice(VARS)
+    yield Inst("DM", "DM", f"{a} * ({b} + {c})", "dm")
+    yield Inst("DM", "DM", f"({b} + {c}) * {a}", "dm")
+    # ---- multiplicative inverse
+    a, b = operand(rng), operand(rng)
+    if b in ("0",):
+        b = "y"
+    yield Inst("MI", "MI", f"{a} / {b}", "mi")
+    bb = rng.choice([rng.choice(VARS), f"({term(rng)} + {rng.choice(POSC)})", f"({rng.choice(VARS)} * {rng.choice(VARS)})"])
+    yield Inst("MI-neg-denominator", "MI", f"{a} / -{bb}", "mi", {"neg": True})
+    # ---- restate subtraction
+    a = operand(rng)
+    b = rng.choice([term(rng), rng.choice(VARS), rng.choice(POSC), f"({term(rng)} + 1)", f"{rng.choice(VARS)}^2", "-" + rng.choice(VARS), "-" + rng.choice(POSC),
+                    f"-{rng.choice(POSC)}{rng.choice(VARS)}", f"{rng.choice(VARS)} * {rng.choice(VARS)}", f"sgn({rng.choice(VARS)})", f"{rng.choice(POSC)}^2", f"{rng.choice(['3', '5'])}!"])
+    yield Inst("RS-sub", "RS", f"{a} - {b}", "rs")
+    nb = rng.choice([f"-{rng.choice(POSC)}", f"-{rng.choice(POSC)}{rng.choice(VARS)}", f"-{rng.choice(POSC)}{rng.choice(VARS)}^{rng.choice(['2', '3', '0.5', '-1'])}"])
+    yield Inst("RS-back", "RS", f"{a} + {nb}", "rs", {"back": True})
+    # ---- variable multiply
+    x = rng.choice(VARS)
+    c1, c2 = rng.choice(["", "2", "-3", "0.5", "4", "7"]), rng.choice(["", "2", "-3", "0.5", "4", "10"])
+    e1, e2 = rng.choice(["", "^2", "^0", "^-1", "^0.5", "^3", "^7"]), rng.choice(["", "^2", "^0", "^-1", "^0.5", "^3", "^4"])
+    yield Inst("VM", "VM", f"{c1}{x}{e1} * {c2}{x}{e2}", "vm", {"x": x, "e1": e1, "e2": e2})
     y = rng.choice([v for v in VARS if v != x])
-    yield Inst("VM-neg", "VM", f"{c1}{x}{e1} * {c2}{y}{e2}", None, applicable=False)
+    yield Inst("VM-neg", "VM", f"{c1}{x}{e1} * {c2}{y}{e2}", "neg", applicable=False)
     # ---- balanced move (whole equation; no embedding contexts)
     L = " + ".join(term(rng) for _ in range(rng.randint(1, 3)))
     R = " + ".join(rng.choice([term(rng), rng.choice(POSC)]) for _ in range(rng.randint(1, 2)))
@@ -364,52 +463,14 @@ def instances(rng):
         return f"{t} + {side_text}" if pos == "first" else f"{side_text} + {t}"
 
     text = f"{mk(L)} = {R}" if side == "L" else f"{L} = {mk(R)}"
-
-    def bm_target(o, t=t, side=side, pos=pos):
-        s_ = o.left if side == "L" else o.right
-        want = vs(t)
-        # the addend is the outermost left-most / right-most operand of the side's + chain
-        n = s_
-        if pos == "last":
-            return n.right if A.v(S.shadow(n.right)) == want else None
-        while S.kind(n.left) == "Add":
-            n = n.left
-        return n.left if A.v(S.shadow(n.left)) == want else None
-
-    def exp_bm(w, g, r, t=t, side=side):
-        if g[0] != "Equal":
-            return "WRONG: not an equation"
-        tv = vs(t)
-        moved_to = g[3] if side == "L" else g[2]
-        stay = g[2] if side == "L" else g[3]
-        other_before = w[3] if side == "L" else w[2]
-        if moved_to != ("Subtract", None, other_before, tv):
-            return "WRONG-SHAPE: other side is not (side - t)"
-        src_before = w[2] if side == "L" else w[3]
-        want_src = eq(src_before)
-        have = eq(("Add", None, stay, tv))
-        return "ok" if want_src == have else "WRONG-SHAPE: remaining side is not the side without t"
-
-    yield Inst("BM-add", "BM", text, exp_bm, target=bm_target, contexts=EQ_CONTEXTS)
+    yield Inst("BM-add", "BM", text, "bm_add", {"t": t, "side": side, "pos": pos}, contexts=EQ_CONTEXTS)
     c_ = rng.choice(["2", "3", "12", "0.5", "-4", "7", "2.5"])
     body = rng.choice([f"{c_}{rng.choice(VARS)}", f"{c_}{rng.choice(VARS)}^2", f"{c_} * {rng.choice(VARS)}"])
     rside = rng.choice([rng.choice(POSC), term(rng), f"{term(rng)} + {rng.choice(POSC)}"])
     flip = rng.random() < 0.3
     text = f"{rside} = {body}" if flip else f"{body} = {rside}"
-
-    def bm_mul_target(o, c_=c_, flip=flip):
-        s_ = o.right if flip else o.left
-        return s_.left if S.kind(s_) == "Multiply" and S.kind(s_.left) == "Constant" else None
-
-    def exp_bmm(w, g, r, c_=c_):
-        cv = A.C(Fraction(c_))
-        want = ("Equal", None, ("Divide", None, w[2], cv), ("Divide", None, w[3], cv))
-        return "ok" if g == want else "WRONG-SHAPE: not both sides divided by the coefficient"
-
-    yield Inst("BM-mul", "BM", text, exp_bmm, target=bm_mul_target, contexts=EQ_CONTEXTS)
-    # documented negatives for balanced move: a term that is not there / nested inside a product
-    yield Inst("BM-neg", "BM", f"{rng.choice(POSC)}({rng.choice(VARS)} + {rng.choice(POSC)}) = {rng.choice(POSC)}", None, applicable=False,
-               target=lambda o: o.left.right.right if S.kind(o.left) == "Multiply" and S.kind(o.left.right) == "Add" else None, contexts=EQ_CONTEXTS)
+    yield Inst("BM-mul", "BM", text, "bm_mul", {"c": c_, "flip": flip}, contexts=EQ_CONTEXTS)
+    yield Inst("BM-neg", "BM", f"{rng.choice(POSC)}({rng.choice(VARS)} + {rng.choice(POSC)}) = {rng.choice(POSC)}", "bm_neg", applicable=False, contexts=EQ_CONTEXTS)
 
 
 def run(rec, cfg):
@@ -428,13 +489,6 @@ def run(rec, cfg):
 
 
 def replay(rec, cfg, w):
-    rng = cfg.rng("replay")
-    # re-generate instances until the same (schema, text) appears is not possible in general:
-    # replay re-drives the recorded full text with the recorded rule at every match instead
-    root = D.parse(w["full"])
-    rule = MR.make_rule(w["rule"])
-    want = vs(w["text"])
-    node = locate(root, want)
-    rec.ev()
-    if node is not None and not rule.can_apply_to(node) and not rule.find_nodes(node):
-        rec.violation("C08", "schema-refused/replay", "a documented schema instance is refused", dict(w))
+    rec.accept = {"schema"}
+    inst = rebuild(w)
+    run_instance(rec, inst, cfg.rng("replay"), inst.contexts)
